@@ -667,7 +667,20 @@ func fatal(f string, a ...interface{}) {
 }
 
 // runReplay runs one registered in-package replay test against the real code.
+// runReplay runs a registered test of the real code; a failing run is repeated once, so that a timing-dependent
+// scenario disturbed by machine load is not reported (a deterministic failure fails both times).
 func runReplay(verif, repo string, rp ReplaySpec) (string, bool) {
+	out, failed := runReplayOnce(verif, repo, rp)
+	if failed {
+		out2, failed2 := runReplayOnce(verif, repo, rp)
+		if !failed2 {
+			return out2 + "\n(first run failed, the repetition passed: treated as disturbed by load)\n", false
+		}
+	}
+	return out, failed
+}
+
+func runReplayOnce(verif, repo string, rp ReplaySpec) (string, bool) {
 	script := "run_inpkg.sh"
 	if rp.Gocb {
 		script = "run_gocb.sh"
